@@ -42,7 +42,16 @@ pub fn present_case(tok: &RefToken, token: &str, claims_clear: &Value, redact: &
 }
 
 pub fn redaction_set(r: &mut Rng, claims: &Value, marks: &[TPath]) -> Vec<String> {
-    let mut out: Vec<String> = marks.iter().filter(|_| r.chance(1, 2)).map(gen::render).collect();
+    // density varies per case: nothing redacted, a single claim, or each marked claim with probability 1/den
+    // (with a fixed 1/2 a deep chain of nested disclosures practically always loses one of its outer levels)
+    let mut out: Vec<String> = match r.below(6) {
+        0 => vec![],
+        1 if !marks.is_empty() => vec![gen::render(r.pick(marks))],
+        _ => {
+            let den = 2 + r.below(5) as u64;
+            marks.iter().filter(|_| r.chance(1, den)).map(gen::render).collect()
+        }
+    };
     if r.chance(1, 3) {
         // paths that are not disclosable or do not exist, prefixes without slash, sibling-prefix names
         let nodes = gen::all_nodes(claims);
@@ -98,8 +107,7 @@ pub fn generate(thorough: bool, seed: u64, em: &mut Emitter) {
     for i in 0..n {
         let mut rc = r.fork();
         let r = &mut rc;
-        let claims = gen::gen_object(r, 3, 3, 1);
-        let marks = gen::gen_marking(r, &claims, true);
+        let (claims, marks) = gen::claims_and_marking(r, i, 3, 3);
         let bound = i % 5 == 0;
         let (token, tok, clear) = match make_token(r, &claims, &marks, bound, i % 2 == 0) {
             Some(x) => x,
